@@ -121,11 +121,26 @@ def tagSetBody (t : Tag) : Option Bytes → Tag
     | some i => { t with message := some (v.take i), signature := some (v.drop i) }
     | none => { t with message := some v, signature := none }
 
+/-- The assignments at the top of `Tag._deserialize`: exactly the attributes the translator found there
+(`OGen.tagResets`) are reset (`None`; `False` for the neg-utc flag), every other attribute keeps the value the
+live object had. -/
+def resetTag (prev : Tag) : Tag :=
+  let r (a : String) : Bool := OGen.tagResets.contains a
+  { objectSha := if r "_object_sha" then none else prev.objectSha
+    objectType := if r "_object_class" then none else prev.objectType
+    name := if r "_name" then none else prev.name
+    tagger := if r "_tagger" then none else prev.tagger
+    tagTime := if r "_tag_time" then none else prev.tagTime
+    tagTz := if r "_tag_timezone" then none else prev.tagTz
+    tagNeg := if r "_tag_timezone_neg_utc" then some false else prev.tagNeg
+    message := if r "_message" then none else prev.message
+    signature := if r "_signature" then none else prev.signature }
+
 /-- `Tag._deserialize` on an object whose attributes are `prev` (a fresh object: `Tag.empty`).  Only
 tagger/time/timezone are reset; the other attributes survive when their header is absent. -/
 def deserializeTag (prev : Tag) (bs : Bytes) : Except Err Tag :=
   let p := parseMessageP bs
-  match foldFields tagField { prev with tagger := none, tagTime := none, tagTz := none, tagNeg := some false } p.1 with
+  match foldFields tagField (resetTag prev) p.1 with
   | .error e => .error e              -- a field handler raised before the generator got further
   | .ok t =>
     match p.2 with
